@@ -347,3 +347,81 @@ func quotaUnits(tier string) []runner.Unit {
 	}})
 	return us
 }
+
+// partialWrite: a server application writes more than one 32 KiB chunk in one call under a write
+// deadline while the client reads nothing: Write returns (n, timeout) with 0 < n < len; the n
+// bytes it accepted are relayed and must be counted.
+func partialWriteExec(udp bool, size int, ctl *explore.Ctl) explore.Result {
+	v := &xfer.Verdict{Prop: "C19"}
+	users := []*appctlpb.User{{Name: proto.String("free"), Password: proto.String("pw-f")}}
+	cfg := world.Config{UDP: udp, MTU: 1400, Users: users, Seed: 77, Horizon: 120 * time.Second}
+	cfg.S2C.Capacity = 2048 // a connection whose buffers are small: the server's output backs up at once
+	var wrote int64
+	var werr error
+	done := false
+	ex := world.Run(cfg, ctl, func(w *world.World) {
+		w.Go("srv", "server", func() {
+			c, _, err := w.Accept()
+			if err != nil {
+				return
+			}
+			c.SetWriteDeadline(w.S.Now().Add(300 * time.Millisecond))
+			n, err := c.Write(make([]byte, size))
+			wrote, werr = int64(n), err
+			done = true
+			vsched.Sleep(2 * time.Second)
+			c.Close()
+		})
+		conn, err := w.Dial(1000)
+		if err != nil {
+			v.Add("setup", "dial: %v", err)
+			return
+		}
+		// the client application does not read while the server writes
+		vsched.Sleep(5 * time.Second)
+		io.Copy(io.Discard, conn)
+		conn.Close()
+		w.Shutdown()
+	})
+	for _, pn := range ex.Panics {
+		v.Add("panic", "%s", pn)
+	}
+	if len(v.Viol) == 0 && !done {
+		v.Add("setup", "the server application's Write never returned")
+	}
+	if len(v.Viol) == 0 {
+		// +10: the socks5 reply the harness wrote on behalf of the application
+		down := counter("free", metrics.UserMetricDownloadBytes)
+		if down != wrote+10 {
+			v.Add("accounting/partial-write", "the server application's Write(%d bytes) under a write deadline returned (%d, %v); the user's download counter says %d, expected %d (the accepted bytes plus the 10-byte reply)", size, wrote, werr, down, wrote+10)
+		}
+	}
+	out := fmt.Sprintf("wrote=%d/err=%v", wrote, werr != nil)
+	if len(v.Viol) > 0 {
+		out = v.Viol[0].Signature
+	}
+	return explore.Result{Outcome: out, Violations: v.Viol, Steps: ex.Steps}
+}
+
+func partialWriteUnits(tier string) []runner.Unit {
+	return []runner.Unit{{Name: "partial-write-accounting", Cost: 3, Run: func(u *runner.U) {
+		for _, udp := range []bool{false, true} {
+			sizes := []int{1000, 32768, 32769, 65536, 65537, 100000, 300000, 1 << 20}
+			if udp {
+				// the send queue takes 4096 segments (about 5.3 MB) before a Write backs up: minutes of
+				// real time per execution, thorough tier only
+				sizes = []int{12 << 20}
+				if tier != "thorough" {
+					continue
+				}
+			}
+			for _, size := range sizes {
+				udp, size := udp, size
+				name := fmt.Sprintf("udp=%v server Write(%d) with a 300 ms write deadline against a client that does not read", udp, size)
+				u.Sample(name)
+				u.Explore(explore.Bound{}, name, func(ctl *explore.Ctl) explore.Result { return partialWriteExec(udp, size, ctl) })
+				u.Distinct(name)
+			}
+		}
+	}}}
+}
